@@ -50,6 +50,19 @@ func main() {
 		os.Exit(cmdFunc(eng, args, *keep, *verbose))
 	case "check":
 		os.Exit(cmdCheck(eng, args, *tier, *keep, *verbose, start))
+	case "locals":
+		// rlverify locals: parameter and local names of every function under contract (contracts/locals.json)
+		out := map[string]*fnLocals{}
+		for k, fc := range eng.cs.Funcs {
+			if fc.Trusted || fc.Assumed || fc.FnType {
+				continue
+			}
+			if fn := eng.funcs[k]; fn != nil && fn.Blocks != nil {
+				out[k] = eng.localsOf(fn)
+			}
+		}
+		data, _ := json.MarshalIndent(out, "", " ")
+		fmt.Println(string(data))
 	case "validate":
 		// rlverify validate <prop>: contract validation against the real code only (see validate.go)
 		if len(args) < 1 {
